@@ -131,6 +131,50 @@ def gate(server: bool, t: int, enc: bool, kexp: bool, authp: bool, authc: bool, 
     return log == [(want, t, seq)] and not out.sends
 
 
+REPS = [0, 1, 2, 3, 4, 5, 6, 7, 20, 21, 30, 49, 50, 52, 60, 79, 80, 90, 94, 128, 255]
+
+
+def gate_pair(server: bool, i1: int, i2: int, enc: bool, kexp: bool, authp: bool, authc: bool, strict: bool, sid: bool) -> bool:
+    """Two injected messages in a row (representatives of every message class):
+    the second is routed exactly as the reference table says for the state the
+    first one left behind; after a fatal first message nothing further is
+    processed."""
+    assume(enc or not (authp or authc))
+    assume(sid or not enc)
+    t1, t2 = pick(REPS, i1), pick(REPS, i2)
+    log = []
+    conn, out = _state(server, enc, kexp, authp, authc, strict, 0, log)
+    conn._session_id = b'S' if sid else b''
+    conn.process_packet = Rec('conn', log, accept=lambda p: p in TABLE).process_packet
+    conn.log_received_packet = lambda *a, **k: None
+    body = UInt32(0) + b'z'
+    deliver(conn, frame(bytes([t1]) + body) + frame(bytes([t2]) + body))
+    w1 = expected(t1, enc, kexp, authp, authc, strict, True)
+    w2 = expected(t2, enc, kexp, authp, authc, strict, True)
+    if out.internal:
+        return False
+    want_log = []
+    sends = 0
+    fatal = False
+    seq = 0
+    for t, w in ((t1, w1), (t2, w2)):
+        if w == 'fatal':
+            fatal = True
+            break
+        if w == 'unimpl':
+            sends += 1
+        else:
+            want_log.append((w, t, seq))
+        seq = 0 if (t == 21 and strict) else seq + 1
+    if fatal != (len(out.closed) == 1):
+        return False
+    if fatal and not isinstance(out.closed[0], ProtocolError):
+        return False
+    unimpl = [p for p in out.sends if p[5] == 3]
+    disc = [p for p in out.sends if p[5] == 1]
+    return log == want_log and len(unimpl) == sends and len(disc) == (1 if fatal else 0) and len(out.sends) == len(unimpl) + len(disc)
+
+
 class Owner:
     def __init__(self):
         self.log = []
@@ -357,6 +401,11 @@ OBLIGATIONS = [
        functions=[C.SSHConnection._recv_data, C.SSHConnection._recv_pkthdr, C.SSHConnection._recv_packet,
                   C.SSHConnection._finish_recv_packet],
        bounds='every message type 0..255 x role x {encrypted, kex in progress, auth in progress, authenticated, strict} x recv_seq in {0,1,5,2^32-2,2^32-1} x channel {registered, not}; single injected message'),
+    Ob('gate_pair', gate_pair, tier='thorough',
+       sym=dict(i1=R(0, 20), i2=R(0, 20), enc=B, kexp=B, authp=B, authc=B, strict=B, sid=B),
+       shards=dict(server=[True, False], strict=[True, False], enc=[True, False]), timeout=600,
+       functions=[C.SSHConnection._recv_data, C.SSHConnection._recv_packet, C.SSHConnection._finish_recv_packet],
+       bounds='two consecutive messages, each one of 21 representatives of the message classes, every phase-flag combination, both roles'),
     Ob('handlers', handlers,
        sym=dict(enc=B, canext=B, staged=B, authp=B, authc=B, final=B, svc=R(0, 2), cut=R(0, 2)),
        shards=dict(server=[True, False], which=[0, 1, 2, 3, 4, 5, 6, 7]),
